@@ -1216,13 +1216,19 @@ def strata_catalogue(tables, texts):  # pylint: disable=too-many-locals,too-many
 		if parts[0] != 'tests' or 'test' not in parts[1:-1] or 'int' in parts or 'bench' in parts or 'mocks' in parts:
 			return None
 		candidates = [k for k in range(len(lines)) if lines[k] == 'namespace catapult { namespace test {']
-		names = [part for part in parts[1:-1] if re.fullmatch(r'[a-z_]+', part) and part not in ('test', 'tests', 'catapult', 'mocks', 'int', 'bench')]
+		# nested utility directories only (tests/<area>/…/test/…), and the directory that follows `catapult` in the path: the namespace
+		# catapult::<that directory> spells a substring of the path
+		if parts[1] == 'test' or 'catapult' not in parts[1:-2]:
+			return None
+		name = parts[parts.index('catapult', 1) + 1].replace('_', '')   # the linter compares against the path with underscores stripped
+		names = [name] if re.fullmatch(r'[a-z_]+', name) and name not in ('test', 'tests', 'catapult', 'mocks', 'int', 'bench') else []
 		if not candidates or not names:
 			return None
 		i = rng.choice(candidates)
 		return Edit(
 			'', path, lines[:i] + [f'namespace catapult {{ namespace {rng.choice(names)} {{'] + lines[i + 1:], 'Inconsistent',
 			'namespace is inconsistent with file location', None, 'stratum namespace named after a directory above a test utility file')
+	namespace_like_a_directory.wanted = 6   # directory names differ in how they survive the linter's path normalisation: several sites
 	add('namespace versus path [test utility directory, namespace named after a parent directory]', 'namespace catapult', namespace_like_a_directory)
 
 	# dependency rules: one stratum per --dep-check-dir
@@ -1720,6 +1726,7 @@ def run(check, unrecognised):  # pylint: disable=too-many-locals,too-many-branch
 			if getattr(make, 'informational', False):
 				informational.add(name)
 			wanted = (1 if quick else 8) if stratum else ((1 if quick else 2) if name.startswith('typo') else per_family)
+			wanted = max(wanted, getattr(make, 'wanted', 0))
 			needle = getattr(make, 'needle', None)
 			found = 0
 			order = list(candidates)
